@@ -232,6 +232,9 @@ def emit_cpp(prog, opts=None):
         for r in range(len(prog.root.regions)):
             out.append('  vf_log(%d, vf_sidx(0, (int)VF_IDS(g_sm)[%d]));' % (6000 + 100 + r, r))
         out.append('}')
+    if opts.get('probe') == 'flags_or':
+        out.append('int vf_flags(void);')
+        out.append('void vf_probe(void) { vf_log(6000, vf_flags() & 0xff); }   // C17: OR answers of every flag, queried inside the behaviour')
     if opts.get('introspect'):
         out.append('__attribute__((noinline)) int vf_introspect(void) {\n  int m = 0;')
         out.append('#if VF_IS_MP11')
